@@ -41,14 +41,18 @@ Witness keys
   C10/crash/<Exc>@<file>:<function>            merge_with raised something that is not a MergeException
   C10/stop/accepted-a-conflict                 stop did not refuse
   C10/refused-without-conflict/<policy>/<relation>   MergeException although no conflict (or policy != stop)
-  C10/data/<policy>/<diagnosis>                Merger.data differs from the expected data; diagnosis says which
-                                               other reading the observed data equals (as-if-<policy>,
-                                               loser-definition-kept-own-value) or `other`
+  C10/data/<policy>/<relation>/<dep>           Merger.data differs from the expected data.  relation = strongest
+                                               relation of the two anchor sets (conflict | equal | no-shared-name);
+                                               dep = anchor-resolution if the pair also fails under hashes=deep,
+                                               arrays=all, else only-with-hashes-H-arrays-A
   C10/rename/<what>                            naming clause of rename broken on the merged object graph
   C10/dump-crash/<Exc>@<file>:<function>
-  C10/dump/duplicate-anchor/<policy>, C10/dump/undefined-alias/<policy>     (text-level check)
-  C10/reload-fails/<policy>/<message class>    strict loader rejects the dumped text
-  C10/reload-differs/<policy>                  reload gives other data than the merge computed
+  C10/dump/duplicate-anchor/<name class>[/<policy>], C10/dump/undefined-alias/<name class>[/<policy>]
+                                               text-level check; name class of the offending anchor = conflict-name |
+                                               equal-name (policy omitted) | unshared-name | new-name
+  C10/reload-fails/<message class>/<relation>/<policy>   strict loader rejects the dumped text for a reason the text
+                                               scan did not already report
+  C10/reload-differs/<relation>/<policy>       reload gives other data than the merge computed
 """
 import io
 import itertools
@@ -301,31 +305,23 @@ def expectation(lt, rt, anchors, hashes, arrays):
     return exp
 
 
-def _diagnose(observed, lt, rt, anchors, hashes, arrays, exp):
-    """Which other reading does the observed data equal?  (only used to build the witness key)"""
-    for other in ANCHOR_POLICIES[1:]:
-        if other != anchors:
-            alt = expectation(lt, rt, other, hashes, arrays)
-            if observed in alt["accept"]:
-                return "as-if-" + other
-    if anchors in ("left", "right") and exp["conflicts"]:
-        env_l, env_r = dict(exp["al"]), dict(exp["ar"])
-        for n in exp["conflicts"]:
-            if anchors == "left":
-                env_r[n] = exp["al"][n]
-            else:
-                env_l[n] = exp["ar"][n]
-        pl = resolve(lt, env_l, own_defs=(anchors == "right"))
-        pr = resolve(rt, env_r, own_defs=(anchors == "left"))
-        for dd in (False, True):
-            if observed == model_merge(pl, pr, hashes, arrays, dd):
-                return "loser-definition-kept-own-value"
-    for mp in MERGE_POLICIES:
-        if mp != (hashes, arrays):
-            alt = expectation(lt, rt, anchors, mp[0], mp[1])
-            if observed in alt["accept"]:
-                return "anchors-ok-but-merged-as-%s-%s" % mp
-    return "other"
+def _strongest(exp):
+    """relation of the two anchor sets reduced to its strongest component"""
+    if exp["conflicts"]:
+        return "conflict"
+    if exp["equal"]:
+        return "equal"
+    return "no-shared-name"
+
+
+def _name_class(name, exp):
+    if name in exp["conflicts"]:
+        return "conflict-name"
+    if name in exp["equal"]:
+        return "equal-name"
+    if name in exp["al"] or name in exp["ar"]:
+        return "unshared-name"
+    return "new-name"
 
 
 # ----------------------------------------------------------------------------------------------
@@ -394,10 +390,18 @@ def graph_anchors(node, out=None, seen=None):
 
 
 def _strict_reload(text):
+    """Parsers.get_yaml_data on the dumped text.  A failure is confirmed with a brand-new editor and the
+    shared one is dropped: after a failed load ruamel's composer keeps its anchor table, the next load with
+    the same YAML() object would report phantom duplicate anchors (not this property's business)."""
+    global _EDITOR
     hit = _RELOAD_CACHE.get(text)
     if hit is None:
         log = gen.QuietLog()
         data, ok = Parsers.get_yaml_data(_editor(), log, text, literal=True)
+        if not ok:
+            _EDITOR = None
+            log = gen.QuietLog()
+            data, ok = Parsers.get_yaml_data(Parsers.get_yaml_editor(), log, text, literal=True)
         hit = (ok, gen.plain(data) if ok else None, "; ".join(m for _, m in log.msgs))
         if len(_RELOAD_CACHE) < 200000:
             _RELOAD_CACHE[text] = hit
@@ -452,7 +456,7 @@ def evaluate(inp):
 
     if outcome == "refused":
         if not exp["refuse"]:
-            fails.append(("C10/refused-without-conflict/%s/%s" % (anchors, exp["relation"]),
+            fails.append(("C10/refused-without-conflict/%s/%s" % (anchors, _strongest(exp)),
                           "merge refused although the anchor policy must accept it",
                           "MergeException: " + refusal[:160], "accepted merge: %r" % (exp["accept"][0],)))
         return {"fails": fails, "sig": _sig(inp, exp, "refused", 0, 0), "ctx": ctx, "outcome": "refused"}
@@ -464,7 +468,13 @@ def evaluate(inp):
 
     got = gen.plain(merger.data)
     if got not in exp["accept"]:
-        fails.append(("C10/data/%s/%s" % (anchors, _diagnose(got, lt, rt, anchors, hashes, arrays, exp)),
+        # shape class of the key: does the same pair already fail under the default merge policies?
+        dep = "anchor-resolution"
+        if (hashes, arrays) != ("deep", "all"):
+            base = evaluate(dict(inp, hashes="deep", arrays="all"))
+            if not any(f[0].startswith("C10/data/") for f in base["fails"]):
+                dep = "only-with-hashes-%s-arrays-%s" % (hashes, arrays)
+        fails.append(("C10/data/%s/%s/%s" % (anchors, _strongest(exp), dep),
                       "merged data differs from the policy-defined result (relation %s, hashes=%s arrays=%s)"
                       % (exp["relation"], hashes, arrays), repr(got), repr(exp["accept"][0])))
 
@@ -503,19 +513,27 @@ def evaluate(inp):
     text = buf.getvalue()
     ctx["dumped"] = text
     dup, undef = text_anchor_faults(text)
+
+    def _cls(names):
+        c = sorted({_name_class(n, exp) for n in names})[0]
+        return c if c == "equal-name" else "%s/%s" % (c, anchors)
     if dup:
-        fails.append(("C10/dump/duplicate-anchor/%s" % anchors, "the dumped result defines an anchor twice",
-                      text, "every anchor defined once"))
+        fails.append(("C10/dump/duplicate-anchor/" + _cls(dup), "the dumped result defines anchor %s twice"
+                      % ", ".join(sorted(set(dup))), text, "every anchor defined once"))
     if undef:
-        fails.append(("C10/dump/undefined-alias/%s" % anchors, "the dumped result uses an alias before/without "
-                      "its definition", text, "every alias defined earlier"))
+        fails.append(("C10/dump/undefined-alias/" + _cls(undef), "the dumped result uses alias %s before/without "
+                      "its definition" % ", ".join(sorted(set(undef))), text, "every alias defined earlier"))
     ok, redata, msg = _strict_reload(text)
     if not ok:
-        fails.append(("C10/reload-fails/%s/%s" % (anchors, _msg_class(msg)),
-                      "the strict loader rejects the dumped result", "%s | %r" % (msg[:200], text),
-                      "reloads to %r" % (got,)))
+        mc = _msg_class(msg)
+        # a duplicate/undefined anchor already reported from the text scan is the same fault: one witness
+        if not ((mc == "duplicate-anchor" and dup) or (mc in ("undefined-alias", "composition-error") and undef)):
+            fails.append(("C10/reload-fails/%s/%s/%s" % (mc, _strongest(exp), anchors),
+                          "the strict loader rejects the dumped result", "%s | %r" % (msg[:200], text),
+                          "reloads to %r" % (got,)))
     elif redata != got:
-        fails.append(("C10/reload-differs/%s" % anchors, "reloading the dump gives other data than the merge computed",
+        fails.append(("C10/reload-differs/%s/%s" % (_strongest(exp), anchors),
+                      "reloading the dump gives other data than the merge computed",
                       "%r from %r" % (redata, text), repr(got)))
     return {"fails": fails, "sig": _sig(inp, exp, "accepted", len(ganch), len(fresh)), "ctx": ctx,
             "outcome": "accepted"}
